@@ -58,7 +58,7 @@ def gen_ops(rng, n, lens, hints="ynd", srcs=("mem", "mem", "file", "range")):
 
 def case_text(c, seed):
     s = "seed %d\ncase %s content comp=%s dedup=%d delays=%d workers=%d%s\n" % (
-        seed, c["id"], c["comp"], c["dedup"], c.get("delays", 0), c.get("workers", 0), (" slow=%d" % c["slow"]) if c.get("slow") else "")
+        seed, c["id"], c["comp"], c["dedup"], c.get("delays", 0), c.get("workers", 0), ((" slow=%d" % c["slow"]) if c.get("slow") else "") + ((" rev=%d" % c["rev"]) if c.get("rev") else ""))
     for h, src, tok in c["ops"]:
         s += "add %s %s %s\n" % (h, src, tok)
     return s + "end\n"
@@ -67,10 +67,10 @@ def case_text(c, seed):
 def parse_replay(path):
     cases = []
     txt = open(path).read()
-    for m in re.finditer(r"case (\S+) content comp=(\S+) dedup=(\d) delays=(\d+) workers=(\d+)(?: slow=(\d+))?\n((?:add .*\n)*)end", txt):
-        ops = [tuple(l.split()[1:4]) for l in m.group(7).splitlines()]
+    for m in re.finditer(r"case (\S+) content comp=(\S+) dedup=(\d) delays=(\d+) workers=(\d+)(?: slow=(\d+))?(?: rev=(\d+))?\n((?:add .*\n)*)end", txt):
+        ops = [tuple(l.split()[1:4]) for l in m.group(8).splitlines()]
         cases.append(dict(id=m.group(1), comp=m.group(2), dedup=int(m.group(3)), delays=int(m.group(4)),
-                          workers=int(m.group(5)), slow=int(m.group(6) or 0), ops=ops))
+                          workers=int(m.group(5)), slow=int(m.group(6) or 0), rev=int(m.group(7) or 0), ops=ops))
     return cases
 
 
